@@ -405,6 +405,11 @@ def slot_detach(an, st, fr, e, args):
     old_used = None
     if args and isinstance(args[0], ObjPtr):
         old_used = st.env.get(("f", args[0].obj, args[0].prefix + "_used"))
+        # DETACHKEEP: a private copy made in order to write into the content keeps all of it: the request covers _used
+        if fr.f.name not in DETACH_MAY_TRUNCATE and isinstance(old_used, Lin) and len(args) > 1 and isinstance(args[1], Lin):
+            ok = st.entails(args[1] - old_used)
+            an.oblige("DETACHKEEP", fr, e, ok, "" if ok else "detach() is asked for %r bytes while the buffer holds %r: the private copy loses the content behind the request; path: %s" % (
+                args[1], old_used, " / ".join(st.trail[-8:])))
     return _new_buffer(an, st, fr, args[1] if len(args) > 1 else None, False, old_used=old_used)
 
 
@@ -479,6 +484,9 @@ BUF_CONTRACTS = {
     "mpt_array_set": {"data": ("bytes", "len", True)},
 }
 # functions that return the added area for the caller to fill: the bytes they add are deliberately not written
+# functions whose contract is to set the capacity (content beyond it is given up on purpose)
+DETACH_MAY_TRUNCATE = {"mpt_array_reserve": "explicit capacity request", "mpt_array_reduce": "requests exactly _used",
+                       "mpt_array_push": "request follows the encoder state (done + scratch), which the buffer fields do not determine"}
 GAPFILL_EXEMPT = {"mpt_buffer_insert": "returns the inserted area", "mpt_array_insert": "returns the inserted area"}
 GLOBAL_INV = {"_mpt_buffer_alloc_psize": (0, 4 * 1024 * 1024 + 8, 8)}      # 0 (unset) or a page size of at least 8
 
